@@ -284,14 +284,24 @@ def check_case(case, enforce_all=False):
             try:
                 v = element(comps[c][name], (i, j) + n)
                 starved = False
-            except RuntimeError:  # RecursionError is a RuntimeError; the library re-raises it as RuntimeError
+            except Exception as exc:  # noqa: BLE001
+                # RecursionError is a RuntimeError and the library re-raises it as RuntimeError; third-party code on the
+                # stack may turn it into anything else (scipy's LinearOperator.__matmul__ catches every Exception and
+                # raises TypeError), so under starvation no exception type is a violation by itself ...
                 starved = True
+                if not isinstance(exc, RuntimeError):
+                    out.labels.append("starved:converted-by-third-party")
             finally:
                 sys.setrecursionlimit(old)
             out.labels.append("op:starved_get")
             if starved:
                 out.labels.append("starved")
                 flags["repeat_or_second"] = True
+                # ... but the same request at the normal limit must now succeed with the undisturbed value (a genuine
+                # exception would surface here, outside the try)
+                v = element(comps[c][name], (i, j) + n)
+                if not _same(_norm(v), lookup(name, i, j, n)):
+                    return out.fail("history-dependent", f"{name}[{i},{j},{list(n)}] requested again after dying of a low recursion limit differs from the reference table")
             elif not _same(_norm(v), lookup(name, i, j, n)):
                 return out.fail("history-dependent", f"{name}[{i},{j},{list(n)}] (under a low recursion limit) differs from the reference table")
         elif kind == "repeat":
